@@ -1,12 +1,14 @@
 // helper is the program the generated scripts of the tsbatch runner (C04, C17) execute.
 //
 //	helper sleep                      block until a signal with default disposition arrives
+//	helper exit <code>                exit at once with that status
 //	helper probe <out.json>           write pid, cwd and environment to out.json
 //	helper deadline <mode> <ms> <log> log "start <pid> <unixnano>", then
 //	    block        sleep forever, signals have their default effect
 //	    trapexit     on SIGQUIT log "quit <unixnano>" and exit 3 after <ms>
 //	    ignore       on SIGQUIT / SIGINT log the time and carry on (only SIGKILL ends it)
 //	    exitat       exit 0 after <ms>
+//	    exitabs      exit 0 at the absolute time <ms> (unix nanoseconds)
 //
 // It is built without the race detector so that its start-up and exit take no extra time.
 package main
@@ -39,6 +41,9 @@ func main() {
 		for {
 			time.Sleep(time.Hour)
 		}
+	case "exit":
+		code, _ := strconv.Atoi(os.Args[2])
+		os.Exit(code)
 	case "probe":
 		cwd, _ := os.Getwd()
 		b, _ := json.Marshal(map[string]any{"pid": os.Getpid(), "cwd": cwd, "env": os.Environ()})
@@ -77,6 +82,10 @@ func main() {
 				}
 				logLine(log, "%s %d", name, time.Now().UnixNano())
 			}
+		case "exitabs":
+			at, _ := strconv.ParseInt(os.Args[3], 10, 64)
+			time.Sleep(time.Until(time.Unix(0, at)))
+			os.Exit(0)
 		case "exitat":
 			time.Sleep(time.Duration(ms) * time.Millisecond)
 			logLine(log, "exit %d", time.Now().UnixNano())
